@@ -41,6 +41,7 @@ CONSTANTS
   KF_RejectCommits,     \* D21: a rejected binary message commits the version / binds the peer tag
   KF_AKETimerAlways,    \* D22: every AKE-type message restarts the query-ignore window
   KF_SMPCorruptSilent,  \* D24: an unparsable SMP message is dropped silently, the run stays half done
+  KF_TagRestarts,       \* D26: a whitespace tag restarts a key exchange that is under way (no ignore window)
   KF_RequeryNewCommit,  \* D25: a repeated query while our DH-Commit is unanswered draws a new commitment
   KF_EarlySSID          \* D20b: the reported SSID is replaced as soon as an exchange derives its secret, not when it completes
 
@@ -463,7 +464,12 @@ RecvPlain(s, m, fresh) ==
     LET offered == {m.tag[i] : i \in DOMAIN m.tag}
         v == Commit(s, offered)
     IN IF v = 0 THEN LET pp == PlainPolicies(s, <<>>) IN Res(pp.s, <<>>, m.text, TRUE, pp.evs)
-       ELSE LET d == SendDHCommit([s EXCEPT !.ver = v], fresh)
+       ELSE IF ~KF_TagRestarts /\ ((s.ms = "enc" /\ s.renc) \/ (s.auth # "nil" /\ s.rstep))
+            THEN LET pp == PlainPolicies([s EXCEPT !.ver = v], <<>>) IN Res(pp.s, <<>>, m.text, FALSE, pp.evs)
+       ELSE LET s1 == [s EXCEPT !.ver = v]
+                d == IF ~KF_RequeryNewCommit /\ s1.auth = "awDHKey" /\ s1.ax # 0
+                     THEN LET s2 == WithOwnTag(s1) IN [s |-> s2, m |-> DHCommitMsg(s2, s2.aenc, s2.ax)]
+                     ELSE SendDHCommit(s1, fresh)
                 pp == PlainPolicies(d.s, <<>>)
             IN Res(pp.s, <<d.m>>, m.text, FALSE, pp.evs)
 
